@@ -25,6 +25,7 @@ import (
 	"github.com/flant/shell-operator/pkg/utils/verifpoint"
 
 	"verifharness/internal/core"
+	"verifharness/internal/opsim"
 )
 
 type Change struct {
@@ -46,6 +47,9 @@ type Input struct {
 	// goroutines (no schedule); StressSeed varies the yields
 	Stress     bool  `json:"stress,omitempty"`
 	StressSeed int64 `json:"stress_seed,omitempty"`
+	// Op (optional): an operator-level scenario (internal/opsim): several kubernetes bindings
+	// per hook, Synchronizations failing and succeeding, events of unlocked monitors
+	Op *opsim.Scenario `json:"op,omitempty"`
 }
 
 type Ev struct {
@@ -63,6 +67,7 @@ type View struct {
 }
 type Obs struct {
 	Mon        *MonitorObs `json:"mon,omitempty"`
+	Op         *opsim.Trace `json:"op,omitempty"`
 	Out        []Ev        `json:"out"`
 	Views      []View      `json:"views"`
 	Cache      []Pair      `json:"cache"`
@@ -115,6 +120,11 @@ func sortedPairs(objs []kemtypes.ObjectAndFilterResult) []Pair {
 
 func Run(in Input) Obs {
 	var o Obs
+	if in.Op != nil {
+		tr := opsim.RunScenario(*in.Op)
+		o.Op = &tr
+		return o
+	}
 	if in.Monitor != nil {
 		m := RunMonitor(*in.Monitor)
 		o.Mon = &m
@@ -368,6 +378,17 @@ func coqPair(p Pair) string {
 }
 
 func Render(in Input, obs *Obs, crash string) core.Case {
+	if in.Op != nil {
+		var tr *opsim.Trace
+		if obs != nil {
+			tr = obs.Op
+		}
+		c := opsim.Render(*in.Op, tr, crash)
+		c.Coq = "COp " + c.Coq
+		c.Key = "op:" + c.Key
+		c.Tags = append(c.Tags, "class:operator")
+		return c
+	}
 	if in.Monitor != nil {
 		var m *MonitorObs
 		if obs != nil {
@@ -520,6 +541,22 @@ func Corpus() []core.In[Input] {
 	}
 }
 
+var opProfile = opsim.Profile{Name: "c01op", MaxHooks: 2, Steps: 30, PFail: 30, PHold: 30, V0: true, PWait: 15}
+
+func init() { opsim.RegisterProfile(opProfile) }
+
+func opCorpus() []opsim.Scenario {
+	return []opsim.Scenario{
+		// two ungrouped kubernetes bindings of one hook, the second one in its own queue: the first
+		// Synchronization succeeds, the second fails once; events of the first binding meanwhile
+		{Cfg: []opsim.Hook{{Id: 1, Kube: []opsim.KB{{Name: 1, ExecSync: true}, {Name: 2, ExecSync: true, Queue: 2}}}},
+			Acts: []opsim.Action{{Kind: "Boot"}, {Kind: "Finish", Q: 0, Ok: true}, {Kind: "KubeEv", Mon: 1, Obj: 1}, {Kind: "Finish", Q: 0, Ok: false}, {Kind: "KubeEv", Mon: 1, Obj: 2}, {Kind: "Finish", Q: 0, Ok: true}, {Kind: "Finish", Q: 0, Ok: true}, {Kind: "KubeEv", Mon: 2, Obj: 3}, {Kind: "Finish", Q: 2, Ok: true}}},
+		// three bindings, the middle one exempt from Synchronization, the last one allowing failure
+		{Cfg: []opsim.Hook{{Id: 1, Kube: []opsim.KB{{Name: 1, ExecSync: true}, {Name: 2, ExecSync: false}, {Name: 3, ExecSync: true, Allow: true}}}},
+			Acts: []opsim.Action{{Kind: "Boot"}, {Kind: "Finish", Q: 0, Ok: true}, {Kind: "KubeEv", Mon: 2, Obj: 1}, {Kind: "Finish", Q: 0, Ok: false}, {Kind: "KubeEv", Mon: 3, Obj: 2}, {Kind: "Finish", Q: 0, Ok: true}, {Kind: "Finish", Q: 0, Ok: true}}},
+	}
+}
+
 func Gen(r *core.Rng, tier string) ([]core.In[Input], bool) {
 	ins := Corpus()
 	// monitor level: every interleaving of the namespace callback and the unlock, with and
@@ -546,6 +583,22 @@ func Gen(r *core.Rng, tier string) ([]core.In[Input], bool) {
 			ins = append(ins, core.In[Input]{Input: Input{Types: allTypes[r.Intn(3)], Changes: genChanges(r, nc), Stress: true, StressSeed: int64(r.Next() >> 1)}, Stream: "stress"})
 		}
 	}
+	// operator level: unlock only by the binding's own Synchronization
+	for _, sc := range opCorpus() {
+		sc := sc
+		ins = append(ins, core.In[Input]{Input: Input{Op: &sc}, Stream: "operator-corpus"})
+	}
+	nop := 30
+	switch tier {
+	case "thorough":
+		nop = 1500
+	case "search":
+		nop = 200
+	}
+	for i := 0; i < nop; i++ {
+		sc := opsim.Scenario{Cfg: opsim.GenConfig(r, opProfile), Seed: int64(r.Next() >> 1), Steps: 10 + r.Intn(opProfile.Steps), Profile: "c01op"}
+		ins = append(ins, core.In[Input]{Input: Input{Op: &sc}, Stream: "operator"})
+	}
 	for i := 0; i < n; i++ {
 		nc := 2 + r.Intn(7)
 		foreign := i%10 == 9
@@ -560,7 +613,7 @@ func Gen(r *core.Rng, tier string) ([]core.In[Input], bool) {
 }
 
 var Driver = core.Driver[Input, Obs]{
-	Spec: core.Spec{Property: "C01", Imports: []string{"C01_Model", "C01_Spec", "C01_Monitor", "C01_Corr"}, Corr: "C01_Corr", Triggers: []string{"F23", "F24"}, ShrinkKey: "ops",
+	Spec: core.Spec{Property: "C01", Imports: []string{"Op_Model", "Op_Corr", "C01_Model", "C01_Spec", "C01_Monitor", "C01_Corr"}, Corr: "C01_Corr", Triggers: []string{"F23", "F24"}, ShrinkKey: "ops",
 		Rule: "a real resourceInformer (locked, not connected to a cluster) driven by the informer callback (per-object histories over 3 objects x 4 states with re-deliveries, deletes, re-creations), Synchronization reads (repeated), foreign readers and the unlock, interleaved deterministically at lock granularity through verifpoint marks; every subset family of event types; 10% of the schedules let a foreign reader read a locked binding (trigger F23); non-trivial = >=2 changes, a Synchronization read, the unlock and >=1 delivered event; distinct = distinct (types, changes, schedule)"},
 	Gen: Gen, Run: Run, Render: Render, PerShard: 400, Workers: 8, CaseTimout: 30 * time.Second,
 }
